@@ -181,6 +181,9 @@ type env struct {
 	sentTo  map[int]int // datagrams sent per client
 	// mustDeliver lists (client, seq) of datagrams that may not be lost (see the finish action)
 	mustDeliver [][2]int
+	// lateForEnded lists (client, seq) of datagrams sent to clients whose association had ended long before, while the
+	// loop was held up and had not heard of it yet (see the stampede action)
+	lateForEnded [][2]int
 	// sizes of the datagrams sent per client, by sequence number; ended: clients whose association was (or may have
 	// been) ended by the history - for the others every single datagram has to arrive
 	sizes map[int][]int
@@ -360,9 +363,29 @@ func runHistory(t *rapid.T, idle time.Duration) {
 				e.ended[100+o] = true
 				check(e.send(100+o, fmt.Sprintf("d%d", wait), 10), "stampede-others")
 			}
-			check(e.send(c, fmt.Sprintf("d%d", 2*wait), 10), "stampede-busy-client")
-			for i := 0; i < 8 && !wedged; i++ {
-				check(e.send(c, "", 10), "stampede-queue")
+			late := rapid.Bool().Draw(t, "lateDatagramsForTheOthers")
+			if !late {
+				check(e.send(c, fmt.Sprintf("d%d", 2*wait), 10), "stampede-busy-client")
+				for i := 0; i < 8 && !wedged; i++ {
+					check(e.send(c, "", 10), "stampede-queue")
+				}
+			} else {
+				// ... and while the loop is still held up by the busy client (its queue full, one datagram in the
+				// loop's hand), the others - whose associations have ended by then, the notifications waiting - send
+				// again. Each of these datagrams comes long after its client's association ended: a fresh one serves it.
+				e.history = append(e.history, "late datagrams for the others")
+				check(e.send(c, fmt.Sprintf("d%d", 4*wait), 10), "stampede-busy-client")
+				for i := 0; i < 6 && !wedged; i++ {
+					check(e.send(c, "", 10), "stampede-queue")
+				}
+				time.Sleep(time.Duration(wait+10) * time.Millisecond)
+				for o := 0; o < others && !wedged; o++ {
+					e.lateForEnded = append(e.lateForEnded, [2]int{100 + o, e.seq[100+o]})
+					check(e.send(100+o, "", 12), "stampede-late-datagrams")
+				}
+				for i := 0; i < 2 && !wedged; i++ {
+					check(e.send(c, "", 10), "stampede-queue")
+				}
 			}
 			endedOnce = true
 		},
@@ -499,6 +522,19 @@ func runHistory(t *rapid.T, idle time.Duration) {
 			return
 		}
 		seen[k] = true
+	}
+	var lost [][2]int
+	for _, md := range e.lateForEnded {
+		if !seen[fmt.Sprintf("%d/%d", md[0], md[1])] {
+			lost = append(lost, md)
+		}
+	}
+	if len(e.lateForEnded) > 0 {
+		hx.Class("C09/late-datagrams-for-ended-associations-while-the-loop-was-held", int64(len(e.lateForEnded)))
+	}
+	if len(lost) >= 2 && !e.gaps {
+		fail("datagrams-lost-after-association-end", "%d of %d datagrams (client, seq: %v) that were sent well after their clients' associations had ended, while the loop was busy with another client, reached neither the old nor a fresh association", len(lost), len(e.lateForEnded), lost)
+		return
 	}
 	for _, md := range e.mustDeliver {
 		if !seen[fmt.Sprintf("%d/%d", md[0], md[1])] && !e.gaps {
